@@ -56,6 +56,11 @@ MEMPOOL_HARNESSES = [
      'obligations': ['REAL MemPool::removeAll with a VTB that is connected once or twice (resubmission of a connected payload): afterwards neither the per-type map nor the VBK relations hold it, and generatePopData never returns it again'],
      'rungs': {'quick': [{'bound': 'one VTB connected 1..2 times on VBK block 3 (pool state constructed directly), removeAll, generatePopData', 'timeout': 200}], 'thorough': [{'bound': 'as quick', 'timeout': 400}]}},
 ]
+CMP_HARNESSES = [
+    {'name': 'h_realcmp', 'src': 'real/h_realcmp.cpp', 'entry': 'h_realcmp', 'repo_srcs': srcsets_real.REAL, 'covers': [1, 2, 3, 4], 'jobs': 16,
+     'obligations': ['REAL AltBlockTree::comparePopScore on two real forks with endorsed keystones: the sign of the verdict is the sign of the protocol scoring (publication = VBK height of the endorsement\'s block of proof, lateness weighted by the lookup table, no publication loses, equal scores tie), the better chain is active afterwards, and the winner does not lose when asked again from its side'],
+     'rungs': {'quick': [{'bound': 'two forks of 3 blocks from the bootstrap block, keystone interval 2, one keystone each, publication heights none/1/2/4/10 per fork (25 combinations), default ALT table and finality delay', 'timeout': 300}], 'thorough': [{'bound': 'as quick', 'timeout': 600}]}},
+]
 VBKADD_HARNESSES = [
     {'name': 'h_vbkadd', 'src': 'real/h_vbkadd.cpp', 'entry': 'h_vbkadd', 'repo_srcs': srcsets_real.REAL, 'covers': [1, 2, 3, 4, 5, 6], 'jobs': 8,
      'obligations': ['REAL VbkBlockTree::addPayloads with two VTBs in one call: it succeeds iff every VTB is valid in the given order; when it fails the VBK and BTC views (blocks, FAILED/ACTIVE bits, reference counts, payload ids, endorsements, best chains, applied count) are exactly as before the call - every VTB applied earlier in the same call is rolled back and, for a containing block off the active VBK chain, the VBK tip is restored',
